@@ -464,3 +464,164 @@ fn c14_raw_import_step() {
     kani::cover!(forced && removals == 1, "forced import discards on mismatch");
     core::mem::forget((res, db, buf));
 }
+
+
+// ---------------------------------------------------------------------------------------------
+// Concrete-shape worlds (all container lengths concrete; values, indices of overlay entries and the
+// file bytes symbolic): what makes `write()` and the rollback round trip tractable.
+pub(crate) fn raw_world_c(real_n: usize, stored_len: usize, np: usize, nupd: usize) -> RawWorld {
+    assert!(real_n <= 3 && np <= 2 && nupd <= 2 && stored_len + np <= NEL);
+    let mut buf: Box<[u8; CAPB]> = Box::new(kani::any());
+    let mut disk = [0u32; NEL];
+    let mut i = 0;
+    while i < NEL {
+        let o = HEADER_OFFSET + 4 * i;
+        disk[i] = u32::from_le_bytes([buf[o], buf[o + 1], buf[o + 2], buf[o + 3]]);
+        i += 1;
+    }
+    let (_db, region) = rawdb::verif_root::api_contract_db(buf.as_mut_ptr(), CAPB, HEADER_OFFSET + 4 * real_n);
+    core::mem::forget(_db);
+    let pv: [u32; 4] = kani::any();
+    let header = crate::base::verif_header::mk_header(kani::any(), kani::any(), kani::any(), Format::Bytes);
+    let base = mk_base::<usize, u32>(region, header, stored_len, vec4(&pv, np), Vec::new(), stored_len, 1);
+    let mut updated = BTreeMap::new();
+    let mut u = 0;
+    while u < nupd {
+        let k: usize = kani::any();
+        let val: u32 = kani::any();
+        kani::assume(k < stored_len && !updated.contains_key(&k));
+        updated.insert(k, val);
+        u += 1;
+    }
+    // expanded state: every index beyond the on-disk length must be in the overlay
+    let mut i = 0;
+    while i < NEL {
+        if i >= real_n && i < stored_len {
+            kani::assume(updated.contains_key(&i));
+        }
+        i += 1;
+    }
+    let v = ReadWriteRawVec {
+        base,
+        holes: with_prev(BTreeSet::new(), BTreeSet::new()),
+        updated: with_prev(updated, BTreeMap::new()),
+        has_stored_holes: false,
+        _strategy: PhantomData,
+    };
+    RawWorld { v, buf, disk, real_n }
+}
+
+fn write_body(real_n: usize, stored_len: usize, np: usize, nupd: usize) {
+    let mut w = raw_world_c(real_n, stored_len, np, nupd);
+    let (before, len) = snapshot(&w);
+    let k: usize = kani::any();
+    kani::assume(k < NEL);
+    rawdb::verif_root::ghost_clear();
+    let r = w.v.write();
+    assert!(r.is_ok());
+    assert!(w.v.len() == len && w.v.stored_len() == len && w.v.pushed().is_empty() && w.v.updated().is_empty());
+    assert!(w.v.region().meta().len() == HEADER_OFFSET + 4 * len, "region length differs from header + 4 * len");
+    if k < len {
+        let o = HEADER_OFFSET + 4 * k;
+        let on_disk = u32::from_le_bytes([w.buf[o], w.buf[o + 1], w.buf[o + 2], w.buf[o + 3]]);
+        assert!(Some(on_disk) == before[k], "element on disk differs from the reference");
+        assert!(w.v.collect_one_at(k) == before[k]);
+    }
+    kani::cover!(true, "write completed");
+    core::mem::forget((r, w));
+}
+
+macro_rules! raw_c {
+    ($body:ident; $( $name:ident = ($($a:expr),*); )*) => {
+        $(
+            #[kani::proof]
+            #[kani::unwind(10)]
+            #[kani::stub(alloc::fmt::format, stubs::format_stub)]
+            #[kani::stub(rawdb::Database::sync_bg_tasks, rawdb::verif_root::sync_bg_tasks_stub)]
+            #[kani::stub(<[u8]>::to_vec, stubs::to_vec_stub)]
+            #[kani::stub(rawdb::Region::open_db_read_only_file, rawdb::verif_root::open_ro_cut)]
+            #[kani::stub(std::vec::Vec::<T>::with_capacity, stubs::with_capacity_stub64)]
+            #[kani::stub(std::vec::Vec::<T>::reserve, stubs::reserve_stub64)]
+            fn $name() {
+                $body($($a),*);
+            }
+        )*
+    };
+}
+// (elements on disk, logical stored length, pushed, updated)
+raw_c! { write_body;
+    c03_raw_write_append = (2, 2, 2, 0);
+    c03_raw_write_trunc_only = (3, 1, 0, 0);
+    c03_raw_write_truncate_append = (3, 1, 1, 0);
+    c03_raw_write_update = (2, 2, 0, 1);
+    c03_raw_write_update_append = (2, 2, 1, 2);
+    c03_raw_write_expanded = (1, 3, 0, 2);
+    c03_raw_write_noop = (2, 2, 0, 0);
+}
+
+
+// ---------------------------------------------------------------------------------------------
+// C04: commit + rollback round trip.  From a clean committed state S (s stored elements, stamp t0),
+// one edit, then the commit sequence of stamped_write_with_changes (serialize_changes -> write with
+// the new stamp -> re-base) without the change-file I/O, then deserialize_then_undo_changes on the
+// serialized record: contents, length and stamp are exactly those of S, and the baseline is S again.
+fn commit_undo_body(s: usize, edit: u8) {
+    let mut w = raw_world_c(s, s, 0, 0);
+    let (before, len0) = snapshot(&w);
+    let stamp0 = w.v.stamp();
+    assert!(len0 == s);
+    // baseline describes S (as after import / a previous commit)
+    // --- one uncommitted edit ---
+    let val: u32 = kani::any();
+    let idx: usize = kani::any();
+    match edit {
+        0 => w.v.push(val),
+        1 => {
+            kani::assume(idx < s);
+            let r = w.v.truncate_if_needed_at(idx);
+            assert!(r.is_ok());
+            core::mem::forget(r);
+        }
+        _ => {
+            kani::assume(idx < s);
+            let r = w.v.update_at(idx, val);
+            assert!(r.is_ok());
+            core::mem::forget(r);
+        }
+    }
+    let (edited, len1) = snapshot(&w);
+    // --- commit (what stamped_write_with_changes does, minus save_change_file) ---
+    let data = w.v.serialize_changes();
+    assert!(data.is_ok());
+    let data = data.unwrap();
+    let new_stamp: u64 = kani::any();
+    kani::assume(crate::Stamp::new(new_stamp) != stamp0);
+    let r = w.v.stamped_write(crate::Stamp::new(new_stamp));
+    assert!(r.is_ok());
+    w.v.base.save_prev();
+    w.v.holes.save();
+    w.v.updated.clear_previous();
+    // the committed state reads as the edited one
+    let k: usize = kani::any();
+    kani::assume(k < 6);
+    assert!(w.v.len() == len1);
+    if k < len1 {
+        assert!(alpha(&w, k) == edited[k]);
+    }
+    // --- rollback ---
+    let u = w.v.deserialize_then_undo_changes(&data);
+    assert!(u.is_ok());
+    assert!(w.v.len() == len0, "length after rollback differs from the previously committed length");
+    assert!(w.v.stamp() == stamp0, "stamp after rollback differs from the previously committed stamp");
+    if k < len0 {
+        assert!(alpha(&w, k) == before[k], "element after rollback differs from the previously committed one");
+    }
+    kani::cover!(true, "commit and rollback completed");
+    core::mem::forget((u, r, data, w));
+}
+raw_c! { commit_undo_body;
+    c04_raw_commit_undo_push = (2, 0);
+    c04_raw_commit_undo_truncate = (3, 1);
+    c04_raw_commit_undo_update = (2, 2);
+    c04_raw_commit_undo_push_empty = (0, 0);
+}
